@@ -7,10 +7,27 @@ Property theorems about `IB.Compression` (model of `src/io/compression.rs` and o
 entry point that goes through it), instantiated on `codecTable` = the registry of the RUNNING code
 (`Generated/Tables.lean`, re-dumped on every run).
 
-The codecs themselves are abstract (`CodecImpl`); what is assumed about them is the structure `Lawful`
-(a hypothesis of the theorems, never an axiom): decompress ∘ compress = id and "the compressed stream
-starts with the format's true signature" (`specSignatures`). `toy_lawful` shows the hypotheses are
-satisfiable; the harness validates them for the real libraries on every generated payload.
+* Every entry point has its OWN model definition mirroring its Rust body (`writeJsonlPar` = plain part
+  files, concatenated into a final file that is opened through `autoWriter`; `readStreaming` = one
+  `autoReader` for the count pass and one more per shard; …). That "every entry point passes its data
+  through the compression layer" is therefore a THEOREM about those definitions (`every_writer_wraps`,
+  `every_reader_decodes`), and it is FALSE for the definitions of the pinned commit (`legacy_*`).
+* A reader source is a `Src` = bytes + read schedule (how many bytes each `read` call returns);
+  detection is proved independent of the schedule (`detection_independent_of_read_schedule`), which was
+  false before the `fix:` commit (`legacy_short_first_read_undetected`).
+* The codecs themselves are abstract (`CodecImpl`); what is assumed about them is the structure `Lawful`
+  (a hypothesis of the theorems, never an axiom): decompress ∘ compress = id and "the compressed stream
+  starts with the format's true signature" (`specSignatures`). `toy_lawful` shows the hypotheses are
+  satisfiable; the harness validates them for the real libraries on every generated payload.
+* The format layer (serde_json / csv / lines, shard arithmetic) is a parameter; the theorems reduce every
+  compressed round trip to what the SAME entry points do on a plain stream (`Reader.plain`), which is
+  the subject of C09 (`reader_plain_eq_readAll`).
+
+NOT covered: the Parquet entry points (`write_parquet_vec`, `PCollection::write_parquet`,
+`read_parquet_*`) never consult the codec registry (Parquet has its own internal page compression), so a
+name like `x.parquet.gz` is written as a plain Parquet file; the property's entry-point list
+{`write_*_vec`, `write_*_par`, PCollection writers, streaming readers, cloud readers/writers} is read
+here as the JSONL / CSV / cloud-JSONL ones.
 -/
 namespace IB.Compression
 
@@ -30,6 +47,10 @@ theorem table_magic_prefix_free : magicPrefixFree codecTable = true := by decide
 
 /-- every magic is non-empty and fits into the peeked buffer -/
 theorem table_magic_sizes : magicSizesOK codecTable = true := by decide
+
+/-- the number of leading bytes `auto_detect_reader` collects (the longest signature) is positive and
+    fits the `BufReader` -/
+theorem table_head_len : headLenOK codecTable = true := by decide
 
 /-- extensions are lower-case ASCII and begin with a dot (an upper-case extension could never match) -/
 theorem table_exts_wellformed : extsWellFormed codecTable = true := by decide
@@ -51,53 +72,143 @@ def caseVariantsOK (tbl : List CodecEntry) : Bool :=
 
 theorem table_case_variants_lower : caseVariantsOK codecTable = true := by decide
 
-/-! ## internal steps -/
+/-! ## every entry point goes through the compression layer -/
 
-theorem store_of_ext {K : CodecImpl} {tbl : List CodecEntry} (hcc : cloudChainOK tbl = true)
-    {path : List Char} {c : CodecEntry} (h : detectExt tbl path = some c) (w : Writer) (x : Bytes) :
-    store K tbl w path x = K.compress c.name x := by
-  cases w <;> simp [store, autoWriter, cloudWriter, cloudWriterCodec_eq hcc, h]
+/-- **every writer wraps**: each JSONL / CSV writer entry point — sequential, parallel (any shard
+    count), PCollection, cloud object — stores exactly `autoWriter path (the plain serialisation)`: the
+    bytes the sequential writer of the format emits, pushed through `auto_detect_writer` ONCE, as one
+    stream. A theorem about the per-entry-point definitions (shard slicing, part files, buffers, the
+    cloud writer's own extension chain), not a definition. -/
+theorem every_writer_wraps {ρ : Type} (K : CodecImpl) (w : AnyWriter ρ) (path : List Char) (rs : List ρ) :
+    w.run K codecTable path rs = some (autoWriter K codecTable path (w.plainOf rs)) := by
+  cases w with
+  | jsonl w ser =>
+    cases w with
+    | vec => rfl
+    | pc => rfl
+    | par sh a => exact writeJsonlPar_eq K codecTable ser path rs sh a
+    | pcPar sh a => exact writeJsonlPar_eq K codecTable ser path rs sh a
+    | cloud =>
+      simp only [AnyWriter.run, JWriter.run, writeCloudJsonl, AnyWriter.plainOf,
+        cloudWriter_eq_autoWriter K table_cloud_chain_agrees]
+  | csv w hdr header ser =>
+    cases w with
+    | vec => rfl
+    | pc => rfl
+    | par sh a => exact writeCsvPar_eq K codecTable hdr header ser path rs sh a
+    | pcPar n =>
+      simp only [AnyWriter.run, CWriter.run, AnyWriter.plainOf, pcWriteCsvPar_eq]
+      rfl
 
-theorem store_of_neutral {K : CodecImpl} {tbl : List CodecEntry} (hcc : cloudChainOK tbl = true)
-    {path : List Char} (h : detectExt tbl path = none) (w : Writer) (x : Bytes) :
-    store K tbl w path x = x := by
-  cases w <;> simp [store, autoWriter, cloudWriter, cloudWriterCodec_eq hcc, h]
+/-- **every reader decodes**: each record reader entry point — vec, helper, streaming (any shard size,
+    `collect_seq` and `collect_par`: the count pass and every per-shard read re-open the file), cloud
+    object — returns what its format layer computes from `autoReader path file`. -/
+theorem every_reader_decodes {Line ρ : Type} (K : CodecImpl) (F : ReadFmt Line ρ) (r : Reader)
+    (path : List Char) (file : Bytes) :
+    r.run K codecTable F path file = (autoReader K codecTable path file).bind (r.plain F) :=
+  reader_decodes K codecTable F r path file
 
-theorem load_eq_autoReader (K : CodecImpl) (tbl : List CodecEntry) (r : Reader) (path : List Char)
-    (f : Bytes) : load K tbl r path f = autoReader K tbl path f := by
-  cases r <;> simp only [load] <;> cases autoReader K tbl path f <;> rfl
+/-- on a plain stream all reader entry points agree with `read_*_vec` (imported from C09) -/
+theorem reader_plain_is_read_all {Line ρ : Type} (F : ReadFmt Line ρ) (r : Reader) (plain : Bytes) :
+    r.plain F plain = (F.lines plain).bind (IB.Io.readAll F.blank F.de) :=
+  reader_plain_eq_readAll F r plain
+
+/-- **detection does not depend on how the source chunks its reads**: for EVERY read schedule (first
+    read of 1 byte, byte-by-byte, …) `auto_detect_reader` decides and returns exactly what it does on a
+    `File` / `Cursor` with the same content — the decision is a function of the path and of the first
+    `headLen` (= 6) bytes of the stream. -/
+theorem detection_independent_of_read_schedule (K : CodecImpl) (path : List Char) (bytes : Bytes)
+    (sched : List Nat) :
+    readerCodecSrc codecTable path ⟨bytes, sched⟩ = readerCodec codecTable path bytes ∧
+      autoReaderSrc K codecTable path ⟨bytes, sched⟩ = autoReader K codecTable path bytes := by
+  constructor
+  · rw [readerCodecSrc_eq_spec table_head_len, readerCodec, readerCodecSrc_eq_spec table_head_len]
+    rfl
+  · rw [autoReaderSrc_eq_spec K table_head_len, autoReader_eq_spec K table_head_len]
+
+/-! ## the core: what is stored under a name reads back -/
+
+/-- a name is *sound* for a plain payload: it carries a codec extension, or it is neutral and the
+    payload does not start with a true format signature (the property's own exception) -/
+def NameOK (path : List Char) (plain : Bytes) : Prop :=
+  (∃ c, detectExt codecTable path = some c) ∨
+    (detectExt codecTable path = none ∧ ∀ n s, (n, s) ∈ specSignatures → ¬ s <+: plain)
+
+theorem detectMagic_none_of_no_signature (x : Bytes) (k : Nat)
+    (hx : ∀ n s, (n, s) ∈ specSignatures → ¬ s <+: x) : detectMagic codecTable (x.take k) = none := by
+  apply detectMagic_take_eq_none
+  intro c hc m hm hp
+  obtain ⟨s, hs, hmem⟩ := spec_of_mem_table table_magic_is_format_signature hc
+  rw [hm] at hs; cases hs
+  exact hx _ _ hmem hp
+
+/-- **transparent**: what `auto_detect_writer` stored under a sound name, `auto_detect_reader` returns
+    unchanged — from any source, whatever its read schedule. -/
+theorem transparent (K : CodecImpl) (hK : Lawful K) (path : List Char) (plain : Bytes)
+    (hok : NameOK path plain) (sched : List Nat) :
+    autoReaderSrc K codecTable path ⟨autoWriter K codecTable path plain, sched⟩ = some plain := by
+  rw [autoReaderSrc_eq_spec K table_head_len]
+  unfold autoReaderSpec readerCodecSpec autoWriter
+  rcases hok with ⟨c, h⟩ | ⟨h, hx⟩
+  · obtain ⟨s, _, hs⟩ := spec_of_mem_table table_magic_is_format_signature (detectExt_mem h)
+    simp only [h]
+    exact hK.roundtrip _ _ hs plain
+  · simp only [h, detectMagic_none_of_no_signature plain _ hx]
+
+/-- the same through any writer and any reader entry point: the compression layer vanishes — the
+    result is what the reader's format layer computes from the writer's plain serialisation. -/
+theorem entry_points_transparent {Line ρ : Type} (K : CodecImpl) (hK : Lawful K) (F : ReadFmt Line ρ)
+    (w : AnyWriter ρ) (r : Reader) (path : List Char) (rs : List ρ) (hok : NameOK path (w.plainOf rs)) :
+    (w.run K codecTable path rs).bind (r.run K codecTable F path) = r.plain F (w.plainOf rs) := by
+  rw [every_writer_wraps, Option.bind_some, every_reader_decodes]
+  have := transparent K hK path (w.plainOf rs) hok []
+  rw [show autoReader K codecTable path (autoWriter K codecTable path (w.plainOf rs)) = some (w.plainOf rs) from this]
+  rfl
 
 /-! ## data under a codec extension -/
 
 /-- **stored compressed**: through every writer entry point, data written to a path that carries a
-    codec's extension is stored as that codec's stream, which starts with the format's true signature. -/
-theorem ext_stored_compressed (K : CodecImpl) (hK : Lawful K) (w : Writer) (path : List Char)
-    (c : CodecEntry) (h : detectExt codecTable path = some c) (x : Bytes) :
-    store K codecTable w path x = K.compress c.name x ∧
-      ∃ s, (c.name, s) ∈ specSignatures ∧ s <+: store K codecTable w path x := by
+    codec's extension is stored as ONE stream of that codec, which starts with the format's true
+    signature. -/
+theorem ext_stored_compressed {ρ : Type} (K : CodecImpl) (hK : Lawful K) (w : AnyWriter ρ)
+    (path : List Char) (c : CodecEntry) (h : detectExt codecTable path = some c) (rs : List ρ) :
+    w.run K codecTable path rs = some (K.compress c.name (w.plainOf rs)) ∧
+      ∃ s, (c.name, s) ∈ specSignatures ∧ s <+: K.compress c.name (w.plainOf rs) := by
   obtain ⟨s, _, hs⟩ := spec_of_mem_table table_magic_is_format_signature (detectExt_mem h)
-  have hst := store_of_ext (K := K) table_cloud_chain_agrees h w x
-  exact ⟨hst, s, hs, hst ▸ hK.signed _ _ hs x⟩
+  refine ⟨?_, s, hs, hK.signed _ _ hs _⟩
+  rw [every_writer_wraps]
+  simp only [autoWriter, h]
+
+/-- the same for `auto_detect_writer` used directly on raw bytes -/
+theorem ext_stored_compressed_raw (K : CodecImpl) (path : List Char) (c : CodecEntry)
+    (h : detectExt codecTable path = some c) (x : Bytes) :
+    autoWriter K codecTable path x = K.compress c.name x := by
+  simp only [autoWriter, h]
 
 /-- **ext_roundtrip**: for EVERY writer entry point, EVERY reader entry point and EVERY path carrying a
-    codec extension, what is written reads back byte-identical. -/
-theorem ext_roundtrip (K : CodecImpl) (hK : Lawful K) (w : Writer) (r : Reader) (path : List Char)
-    (c : CodecEntry) (h : detectExt codecTable path = some c) (x : Bytes) :
-    load K codecTable r path (store K codecTable w path x) = some x := by
-  obtain ⟨s, _, hs⟩ := spec_of_mem_table table_magic_is_format_signature (detectExt_mem h)
-  rw [store_of_ext table_cloud_chain_agrees h, load_eq_autoReader]
-  simp only [autoReader, readerCodec, h]
-  exact hK.roundtrip _ _ hs x
+    codec extension, what is written reads back exactly as the same entry points would read the plain
+    serialisation … -/
+theorem ext_roundtrip {Line ρ : Type} (K : CodecImpl) (hK : Lawful K) (F : ReadFmt Line ρ)
+    (w : AnyWriter ρ) (r : Reader) (path : List Char) (c : CodecEntry)
+    (h : detectExt codecTable path = some c) (rs : List ρ) :
+    (w.run K codecTable path rs).bind (r.run K codecTable F path) = r.plain F (w.plainOf rs) :=
+  entry_points_transparent K hK F w r path rs (Or.inl ⟨c, h⟩)
 
-/-- record level: with any serialiser / parser pair of the format layer that round-trips on plain bytes
-    (property C09), records written under a codec extension read back identical. -/
-theorem ext_roundtrip_records {ρ : Type} (K : CodecImpl) (hK : Lawful K) (ser : List ρ → Bytes)
-    (de : Bytes → Option (List ρ)) (hfmt : ∀ rs, de (ser rs) = some rs) (w : Writer) (r : Reader)
-    (path : List Char) (c : CodecEntry) (h : detectExt codecTable path = some c) (rs : List ρ) :
-    readRecs K codecTable de r path (writeRecs K codecTable ser w path rs) = some rs := by
-  unfold readRecs writeRecs
-  rw [ext_roundtrip K hK w r path c h]
-  exact hfmt rs
+/-- … hence, with any serialiser / parser pair of the format layer that round-trips on plain bytes
+    (property C09: `roundtrip_modulo_serialiser`, `csv_roundtrip`), records written under a codec
+    extension read back identical. -/
+theorem ext_roundtrip_records {Line ρ : Type} (K : CodecImpl) (hK : Lawful K) (F : ReadFmt Line ρ)
+    (w : AnyWriter ρ) (r : Reader) (path : List Char) (c : CodecEntry)
+    (h : detectExt codecTable path = some c) (rs : List ρ)
+    (hfmt : (F.lines (w.plainOf rs)).bind (IB.Io.readAll F.blank F.de) = some rs) :
+    (w.run K codecTable path rs).bind (r.run K codecTable F path) = some rs := by
+  rw [ext_roundtrip K hK F w r path c h, reader_plain_is_read_all, hfmt]
+
+/-- raw bytes through `auto_detect_writer` / `auto_detect_reader`, from any source -/
+theorem ext_roundtrip_raw (K : CodecImpl) (hK : Lawful K) (path : List Char) (c : CodecEntry)
+    (h : detectExt codecTable path = some c) (x : Bytes) (sched : List Nat) :
+    autoReaderSrc K codecTable path ⟨autoWriter K codecTable path x, sched⟩ = some x :=
+  transparent K hK path x (Or.inl ⟨c, h⟩) sched
 
 /-- **case-insensitive**: a path that ends with ANY upper/lower-case spelling of a codec's extension is
     detected as that codec — by the writer and by the reader, whatever precedes the extension. -/
@@ -126,41 +237,43 @@ theorem detectExt_lower_congr (tbl : List CodecEntry) (p q : List Char) (h : low
 
 /-! ## data under a neutral name -/
 
-/-- **neutral, writer side**: no codec extension ⇒ every writer entry point stores the bytes verbatim -/
-theorem neutral_stored_verbatim (K : CodecImpl) (w : Writer) (path : List Char)
-    (h : detectExt codecTable path = none) (x : Bytes) : store K codecTable w path x = x :=
-  store_of_neutral table_cloud_chain_agrees h w x
+/-- **neutral, writer side**: no codec extension ⇒ every writer entry point stores the plain
+    serialisation verbatim -/
+theorem neutral_stored_verbatim {ρ : Type} (K : CodecImpl) (w : AnyWriter ρ) (path : List Char)
+    (h : detectExt codecTable path = none) (rs : List ρ) :
+    w.run K codecTable path rs = some (w.plainOf rs) := by
+  rw [every_writer_wraps]
+  simp only [autoWriter, h]
 
 /-- **neutral_verbatim**: no codec extension ∧ the content does not start with a true format signature
-    ⇒ every reader entry point returns the content verbatim (for ANY codec implementation). -/
-theorem neutral_verbatim (K : CodecImpl) (r : Reader) (path : List Char)
-    (h : detectExt codecTable path = none) (x : Bytes)
-    (hx : ∀ n s, (n, s) ∈ specSignatures → ¬ s <+: x) :
-    load K codecTable r path x = some x := by
-  have hm : detectMagic codecTable x = none := by
-    apply detectMagic_eq_none
-    intro c hc m hm hp
-    obtain ⟨s, hs, hmem⟩ := spec_of_mem_table table_magic_is_format_signature hc
-    rw [hm] at hs; cases hs
-    exact hx _ _ hmem hp
-  rw [load_eq_autoReader]
-  simp only [autoReader, readerCodec, h, hm]
+    ⇒ `auto_detect_reader` returns the content verbatim — for ANY codec implementation and ANY read
+    schedule of the source … -/
+theorem neutral_verbatim_raw (K : CodecImpl) (path : List Char) (h : detectExt codecTable path = none)
+    (x : Bytes) (hx : ∀ n s, (n, s) ∈ specSignatures → ¬ s <+: x) (sched : List Nat) :
+    autoReaderSrc K codecTable path ⟨x, sched⟩ = some x := by
+  rw [autoReaderSrc_eq_spec K table_head_len]
+  simp only [autoReaderSpec, readerCodecSpec, h, detectMagic_none_of_no_signature x _ hx]
 
-/-- whole trip under a neutral name -/
-theorem neutral_roundtrip (K : CodecImpl) (w : Writer) (r : Reader) (path : List Char)
-    (h : detectExt codecTable path = none) (x : Bytes)
+/-- … and every reader entry point parses it as a plain stream. -/
+theorem neutral_verbatim {Line ρ : Type} (K : CodecImpl) (F : ReadFmt Line ρ) (r : Reader)
+    (path : List Char) (h : detectExt codecTable path = none) (x : Bytes)
     (hx : ∀ n s, (n, s) ∈ specSignatures → ¬ s <+: x) :
-    load K codecTable r path (store K codecTable w path x) = some x := by
-  rw [neutral_stored_verbatim K w path h]
-  exact neutral_verbatim K r path h x hx
+    r.run K codecTable F path x = r.plain F x := by
+  rw [every_reader_decodes]
+  rw [show autoReader K codecTable path x = some x from neutral_verbatim_raw K path h x hx []]
+  rfl
 
-/-- ordinary JSON / CSV / text: content whose first byte is none of `1f`, `28`, `42` ('B'), `fd` (and
-    empty content) is never taken for compressed data. JSON Lines always qualifies. -/
-theorem text_never_misdetected (K : CodecImpl) (r : Reader) (path : List Char)
-    (h : detectExt codecTable path = none) (x : Bytes)
+/-- whole trip under a neutral name, every writer × every reader (for ANY codec implementation) -/
+theorem neutral_roundtrip {Line ρ : Type} (K : CodecImpl) (F : ReadFmt Line ρ)
+    (w : AnyWriter ρ) (r : Reader) (path : List Char) (h : detectExt codecTable path = none)
+    (rs : List ρ) (hx : ∀ n s, (n, s) ∈ specSignatures → ¬ s <+: w.plainOf rs) :
+    (w.run K codecTable path rs).bind (r.run K codecTable F path) = r.plain F (w.plainOf rs) := by
+  rw [neutral_stored_verbatim K w path h, Option.bind_some]
+  exact neutral_verbatim K F r path h _ hx
+
+theorem no_signature_of_first_byte (x : Bytes)
     (hx : ∀ b, x.head? = some b → b ∉ [0x1f, 0x28, 0x42, 0xfd]) :
-    load K codecTable r path x = some x := by
-  apply neutral_verbatim K r path h x
+    ∀ n s, (n, s) ∈ specSignatures → ¬ s <+: x := by
   intro n s hs hp
   cases x with
   | nil =>
@@ -172,51 +285,115 @@ theorem text_never_misdetected (K : CodecImpl) (r : Reader) (path : List Char)
     rcases hs with ⟨_, rfl⟩ | ⟨_, rfl⟩ | ⟨_, rfl⟩ | ⟨_, rfl⟩ <;>
       (obtain ⟨u, hu⟩ := hp; simp only [List.cons_append, List.cons.injEq] at hu; simp [← hu.1] at hb)
 
+/-- ordinary JSON / CSV / text: content whose first byte is none of `1f`, `28`, `42` ('B'), `fd` (and
+    empty content) is never taken for compressed data. JSON Lines always qualifies. -/
+theorem text_never_misdetected {Line ρ : Type} (K : CodecImpl) (F : ReadFmt Line ρ) (r : Reader)
+    (path : List Char) (h : detectExt codecTable path = none) (x : Bytes)
+    (hx : ∀ b, x.head? = some b → b ∉ [0x1f, 0x28, 0x42, 0xfd]) (sched : List Nat) :
+    autoReaderSrc K codecTable path ⟨x, sched⟩ = some x ∧ r.run K codecTable F path x = r.plain F x :=
+  ⟨neutral_verbatim_raw K path h x (no_signature_of_first_byte x hx) sched,
+   neutral_verbatim K F r path h x (no_signature_of_first_byte x hx)⟩
+
 /-- pure ASCII text (every byte < 0x80) under a neutral name is taken for compressed data ONLY if it
     literally starts with the three characters "BZh" — the case the property itself excepts. -/
-theorem ascii_text_misdetected_only_if_BZh (K : CodecImpl) (r : Reader) (path : List Char)
-    (h : detectExt codecTable path = none) (x : Bytes) (hascii : ∀ b ∈ x, b < 128)
-    (hbzh : ¬ [0x42, 0x5a, 0x68] <+: x) : load K codecTable r path x = some x := by
-  apply neutral_verbatim K r path h x
-  intro n s hs hp
-  simp only [specSignatures, List.mem_cons, Prod.mk.injEq, List.not_mem_nil, or_false] at hs
-  rcases hs with ⟨_, rfl⟩ | ⟨_, rfl⟩ | ⟨_, rfl⟩ | ⟨_, rfl⟩
-  · exact absurd (hascii 0x8b (hp.subset (by simp))) (by decide)
-  · exact absurd (hascii 0xb5 (hp.subset (by simp))) (by decide)
-  · exact hbzh hp
-  · exact absurd (hascii 0xfd (hp.subset (by simp))) (by decide)
+theorem ascii_text_misdetected_only_if_BZh {Line ρ : Type} (K : CodecImpl) (F : ReadFmt Line ρ)
+    (r : Reader) (path : List Char) (h : detectExt codecTable path = none) (x : Bytes)
+    (hascii : ∀ b ∈ x, b < 128) (hbzh : ¬ [0x42, 0x5a, 0x68] <+: x) (sched : List Nat) :
+    autoReaderSrc K codecTable path ⟨x, sched⟩ = some x ∧ r.run K codecTable F path x = r.plain F x := by
+  have hx : ∀ n s, (n, s) ∈ specSignatures → ¬ s <+: x := by
+    intro n s hs hp
+    simp only [specSignatures, List.mem_cons, Prod.mk.injEq, List.not_mem_nil, or_false] at hs
+    rcases hs with ⟨_, rfl⟩ | ⟨_, rfl⟩ | ⟨_, rfl⟩ | ⟨_, rfl⟩
+    · exact absurd (hascii 0x8b (hp.subset (by simp))) (by decide)
+    · exact absurd (hascii 0xb5 (hp.subset (by simp))) (by decide)
+    · exact hbzh hp
+    · exact absurd (hascii 0xfd (hp.subset (by simp))) (by decide)
+  exact ⟨neutral_verbatim_raw K path h x hx sched, neutral_verbatim K F r path h x hx⟩
 
 /-- **neutral_signature**: genuinely compressed content under a neutral name is recognised by its
-    signature and decoded, through every reader entry point. -/
-theorem neutral_signature (K : CodecImpl) (hK : Lawful K) (r : Reader) (path : List Char)
+    signature and decoded — by `auto_detect_reader` on ANY source (whatever its read schedule: this is
+    what the short-first-read `fix:` commit repaired) … -/
+theorem neutral_signature_raw (K : CodecImpl) (hK : Lawful K) (path : List Char)
     (h : detectExt codecTable path = none) (n : String) (s : Bytes) (hs : (n, s) ∈ specSignatures)
-    (x : Bytes) : load K codecTable r path (K.compress n x) = some x := by
+    (x : Bytes) (sched : List Nat) :
+    autoReaderSrc K codecTable path ⟨K.compress n x, sched⟩ = some x := by
   obtain ⟨c, hc, hn, hm⟩ := table_of_mem_spec table_magic_is_format_signature hs
-  have hd : detectMagic codecTable (K.compress n x) = some c :=
-    detectMagic_eq_some table_magic_prefix_free table_magic_sizes hc hm (hK.signed _ _ hs x)
-  rw [load_eq_autoReader]
-  simp only [autoReader, readerCodec, h, hd, hn]
+  obtain ⟨m', hm', hpos, _⟩ := magicSizesOK_spec table_magic_sizes hc
+  rw [hm] at hm'; cases hm'
+  have hd : detectMagic codecTable ((K.compress n x).take (headLen codecTable)) = some c :=
+    detectMagic_take_eq_some table_magic_prefix_free hc hm hpos (magic_le_headLen hc hm) (hK.signed _ _ hs x)
+  rw [autoReaderSrc_eq_spec K table_head_len]
+  simp only [autoReaderSpec, readerCodecSpec, h, hd, hn]
   exact hK.roundtrip _ _ hs x
 
+/-- … and through every reader entry point. -/
+theorem neutral_signature {Line ρ : Type} (K : CodecImpl) (hK : Lawful K) (F : ReadFmt Line ρ)
+    (r : Reader) (path : List Char) (h : detectExt codecTable path = none) (n : String) (s : Bytes)
+    (hs : (n, s) ∈ specSignatures) (x : Bytes) :
+    r.run K codecTable F path (K.compress n x) = r.plain F x := by
+  rw [every_reader_decodes]
+  rw [show autoReader K codecTable path (K.compress n x) = some x from
+    neutral_signature_raw K hK path h n s hs x []]
+  rfl
+
 /-- detection by content is exact: under a neutral name the reader decodes with codec `c` iff the
-    content starts with `c`'s true signature. -/
+    content starts with `c`'s true signature — for every read schedule of the source. -/
 theorem neutral_reader_codec_iff (path : List Char) (h : detectExt codecTable path = none) (x : Bytes)
-    (c : CodecEntry) (hc : c ∈ codecTable) :
-    readerCodec codecTable path x = some c ↔ ∃ s, (c.name, s) ∈ specSignatures ∧ c.magic = some s ∧ s <+: x := by
+    (sched : List Nat) (c : CodecEntry) (hc : c ∈ codecTable) :
+    readerCodecSrc codecTable path ⟨x, sched⟩ = some c ↔
+      ∃ s, (c.name, s) ∈ specSignatures ∧ c.magic = some s ∧ s <+: x := by
   obtain ⟨s, hm, hmem⟩ := spec_of_mem_table table_magic_is_format_signature hc
-  simp only [readerCodec, h]
+  rw [readerCodecSrc_eq_spec table_head_len]
+  simp only [readerCodecSpec, h]
   constructor
   · intro hd
     refine ⟨s, hmem, hm, ?_⟩
     unfold detectMagic at hd
-    dsimp only at hd
     split at hd
     · cases hd
     · obtain ⟨m, hm', hp⟩ := magicMatches_iff.mp (List.find?_some hd)
       rw [hm] at hm'; cases hm'
       exact hp.trans (List.take_prefix _ _)
   · rintro ⟨s', _, hm', hp⟩
-    exact detectMagic_eq_some table_magic_prefix_free table_magic_sizes hc hm' hp
+    obtain ⟨m', hm'', hpos, _⟩ := magicSizesOK_spec table_magic_sizes hc
+    rw [hm'] at hm''; cases hm''
+    exact detectMagic_take_eq_some table_magic_prefix_free hc hm' hpos (magic_le_headLen hc hm') hp
+
+/-! ## glob reads: every matched file is decoded under its OWN name -/
+
+/-- **glob_roundtrip**: a set of files written by ANY mix of writer entry points under ANY mix of sound
+    names (different codecs, case variants, neutral names side by side) and read through the glob branch
+    of `read_jsonl` / `read_csv` / `read_cloud_jsonl_glob` yields the records of all files, in the
+    order the files are listed — provided the format layer round-trips on plain bytes (C09). -/
+theorem glob_roundtrip {Line ρ : Type} (K : CodecImpl) (hK : Lawful K) (F : ReadFmt Line ρ)
+    (items : List (List Char × AnyWriter ρ × List ρ))
+    (hok : ∀ i ∈ items, NameOK i.1 (i.2.1.plainOf i.2.2))
+    (hfmt : ∀ i ∈ items, (F.lines (i.2.1.plainOf i.2.2)).bind (IB.Io.readAll F.blank F.de) = some i.2.2) :
+    ∃ files, items.mapM (fun i => (i.2.1.run K codecTable i.1 i.2.2).map fun b => (i.1, b)) = some files ∧
+      readGlob K codecTable F files = some (items.map (·.2.2)).flatten := by
+  induction items with
+  | nil => exact ⟨[], rfl, rfl⟩
+  | cons i items ih =>
+    obtain ⟨files, hf, hr⟩ := ih (fun j hj => hok j (List.mem_cons_of_mem _ hj))
+      (fun j hj => hfmt j (List.mem_cons_of_mem _ hj))
+    have hi := hok i List.mem_cons_self
+    have hfi := hfmt i List.mem_cons_self
+    refine ⟨(i.1, autoWriter K codecTable i.1 (i.2.1.plainOf i.2.2)) :: files, ?_, ?_⟩
+    · rw [List.mapM_cons, hf, every_writer_wraps]
+      rfl
+    · have hone : readVec K codecTable F i.1 (autoWriter K codecTable i.1 (i.2.1.plainOf i.2.2)) = some i.2.2 := by
+        unfold readVec
+        rw [show autoReader K codecTable i.1 (autoWriter K codecTable i.1 (i.2.1.plainOf i.2.2)) =
+          some (i.2.1.plainOf i.2.2) from transparent K hK i.1 _ hi []]
+        exact hfi
+      unfold readGlob at hr ⊢
+      rw [List.mapM_cons, hone]
+      cases hm : files.mapM (fun f => readVec K codecTable F f.1 f.2) with
+      | none => rw [hm] at hr; simp at hr
+      | some parts =>
+        rw [hm] at hr
+        simp only [Option.map_some, Option.some.injEq] at hr
+        simp [hr]
 
 /-! ## non-vacuity -/
 
@@ -233,9 +410,18 @@ theorem toy_lawful : Lawful toy := by
 /-- hypotheses of `ext_roundtrip` / `ext_stored_compressed` on a concrete mixed-case path -/
 example : detectExt codecTable "Data/x.jsonl.Gz".toList = some ⟨"gzip", [".gz", ".gzip"], some [0x1f, 0x8b]⟩ := by
   decide
-/-- … and the conclusion evaluated on it (parallel JSONL writer, streaming reader) -/
-example : load toy codecTable .jsonlStreaming "x.jsonl.GZ".toList
-    (store toy codecTable .jsonlPar "x.jsonl.GZ".toList [91, 49, 93, 10]) = some [91, 49, 93, 10] := by decide
+/-- … the conclusion evaluated on it (parallel JSONL writer with 2 shards, streaming reader with 1 line per
+    shard, parallel collect; records = lines `[1]`, `[2]`, `[3]`) … -/
+example : ((AnyWriter.jsonl (.par (some 2) 16) id).run toy codecTable "x.jsonl.GZ".toList
+      [[91, 49, 93], [91, 50, 93], [91, 51, 93]]).bind
+    ((Reader.streaming 1 true).run toy codecTable lineJsonl "x.jsonl.GZ".toList) =
+      some [[91, 49, 93], [91, 50, 93], [91, 51, 93]] := by decide
+/-- … and the format hypothesis `hfmt` of `ext_roundtrip_records` / `glob_roundtrip` on the concrete line
+    formats (JSONL; CSV with a header) -/
+example : (lineJsonl.lines ((AnyWriter.jsonl .vec id).plainOf [[91, 49, 93], [91, 50, 93]])).bind
+    (IB.Io.readAll lineJsonl.blank lineJsonl.de) = some [[91, 49, 93], [91, 50, 93]] := by decide
+example : ((lineCsv true).lines ((AnyWriter.csv .vec true (withNl [110]) withNl).plainOf [[49], [50]])).bind
+    (IB.Io.readAll (lineCsv true).blank (lineCsv true).de) = some [[49], [50]] := by decide
 /-- hypotheses of `neutral_verbatim` on the historical witness: CSV text that starts with "BZ" -/
 example : detectExt codecTable "plain.csv".toList = none ∧
     ∀ n s, (n, s) ∈ specSignatures → ¬ s <+: [0x42, 0x5a, 0x2c, 0x31, 0x0a] := by
@@ -246,6 +432,15 @@ example : detectExt codecTable "plain.csv".toList = none ∧
     (rw [← List.isPrefixOf_iff_prefix]; decide)
 /-- a case variant in the sense of `ext_case_insensitive` -/
 example : ".bZiP2".toList ∈ caseVariants ".bzip2".toList := by decide
+/-- `neutral_signature_raw` on a source that delivers its first three bytes one by one -/
+example : autoReaderSrc toy codecTable "x.dat".toList ⟨toy.compress "xz" [1, 2, 3], [0, 0, 0]⟩ = some [1, 2, 3] := by
+  decide
+/-- `glob_roundtrip` evaluated: a gzip file, a plain file and a zstd file side by side -/
+example : readGlob toy codecTable lineJsonl
+    [("d/a.jsonl.gz".toList, writeJsonlVec toy codecTable id "d/a.jsonl.gz".toList [[49]]),
+     ("d/b.jsonl".toList, writeJsonlVec toy codecTable id "d/b.jsonl".toList [[50]]),
+     ("d/c.JSONL.ZST".toList, writeJsonlVec toy codecTable id "d/c.JSONL.ZST".toList [[51]])] =
+    some [[49], [50], [51]] := by decide
 
 /-! ## the pinned commit: negation witnesses (what the check guards against) -/
 
@@ -256,23 +451,49 @@ theorem legacy_table_magic_not_signature : tableMagicOK Legacy.codecTable = fals
     although it does not start with bzip2's signature "BZh" (negation of `neutral_verbatim`). -/
 theorem legacy_bz_text_misdetected :
     (readerCodec Legacy.codecTable "plain.csv".toList [0x42, 0x5a, 0x2c, 0x31, 0x0a]).map (·.name) = some "bzip2" ∧
-    load toy Legacy.codecTable .csvVec "plain.csv".toList [0x42, 0x5a, 0x2c, 0x31, 0x0a] = none ∧
-    load toy codecTable .csvVec "plain.csv".toList [0x42, 0x5a, 0x2c, 0x31, 0x0a] = some [0x42, 0x5a, 0x2c, 0x31, 0x0a] := by
+    Reader.vec.run toy Legacy.codecTable (lineCsv false) "plain.csv".toList [0x42, 0x5a, 0x2c, 0x31, 0x0a] = none ∧
+    Reader.vec.run toy codecTable (lineCsv false) "plain.csv".toList [0x42, 0x5a, 0x2c, 0x31, 0x0a] =
+      some [[0x42, 0x5a, 0x2c, 0x31]] := by
   decide
 
-/-- at `a2588b9` the free parallel writers stored the plain bytes under any name … -/
-theorem legacy_par_writers_store_plain (K : CodecImpl) (tbl : List CodecEntry) (path : List Char) (x : Bytes) :
-    Legacy.store K tbl .jsonlPar path x = x ∧ Legacy.store K tbl .csvPar path x = x ∧
-      Legacy.store K tbl .pcJsonlPar path x = x := ⟨rfl, rfl, rfl⟩
+/-- at `a2588b9` the free parallel writers (and `PCollection::write_jsonl_par`) stored the plain
+    serialisation under ANY name, for all data and shard counts: `every_writer_wraps` is false for the
+    pinned definitions … -/
+theorem legacy_par_writers_store_plain {ρ : Type} (K : CodecImpl) (tbl : List CodecEntry) (ser : ρ → Bytes)
+    (hdr : Bool) (header : Bytes) (path : List Char) (rs : List ρ) (sh : Option Nat) (a : Nat) :
+    Legacy.JWriter.run K tbl ser (.par sh a) path rs = some (jsonlPlain ser rs) ∧
+    Legacy.JWriter.run K tbl ser (.pcPar sh a) path rs = some (jsonlPlain ser rs) ∧
+    Legacy.CWriter.run K tbl hdr header ser (.par sh a) path rs = some (csvPlain hdr header ser rs) := by
+  have hj : Legacy.writeJsonlPar ser rs sh a = some (jsonlPlain ser rs) := by
+    have h := writeJsonlPar_eq ⟨fun _ x => x, fun _ x => some x⟩ [] ser path rs sh a
+    unfold writeJsonlPar writeJsonlVec autoWriter detectExt at h
+    unfold Legacy.writeJsonlPar
+    split
+    · next h0 =>
+      have : rs = [] := List.eq_nil_of_length_eq_zero h0
+      subst this; rfl
+    · next h0 => simpa [h0] using h
+  have hc : Legacy.writeCsvPar hdr header ser rs sh a = some (csvPlain hdr header ser rs) := by
+    have h := writeCsvPar_eq ⟨fun _ x => x, fun _ x => some x⟩ [] hdr header ser path rs sh a
+    unfold writeCsvPar writeCsvVec autoWriter detectExt at h
+    unfold Legacy.writeCsvPar
+    split
+    · next h0 =>
+      have : rs = [] := List.eq_nil_of_length_eq_zero h0
+      subst this
+      cases hdr <;> simp [csvPlain, IB.Io.csvWrite]
+    · next h0 => simpa [h0] using h
+  exact ⟨hj, hj, hc⟩
 
 /-- … so `x.jsonl.gz` written by `write_jsonl_par` did not start with the gzip signature and could not
     be read back (negation of `ext_stored_compressed` / `ext_roundtrip`); the current model round-trips. -/
 theorem legacy_par_writer_unreadable :
-    Legacy.store toy codecTable .jsonlPar "x.jsonl.gz".toList [91, 49, 93, 10] = [91, 49, 93, 10] ∧
-    load toy codecTable .jsonlVec "x.jsonl.gz".toList
-      (Legacy.store toy codecTable .jsonlPar "x.jsonl.gz".toList [91, 49, 93, 10]) = none ∧
-    load toy codecTable .jsonlVec "x.jsonl.gz".toList
-      (store toy codecTable .jsonlPar "x.jsonl.gz".toList [91, 49, 93, 10]) = some [91, 49, 93, 10] := by
+    Legacy.JWriter.run toy codecTable id (.par (some 2) 16) "x.jsonl.gz".toList [[91, 49, 93], [91, 50, 93]] =
+      some [91, 49, 93, 10, 91, 50, 93, 10] ∧
+    (Legacy.JWriter.run toy codecTable id (.par (some 2) 16) "x.jsonl.gz".toList [[91, 49, 93], [91, 50, 93]]).bind
+      (Reader.vec.run toy codecTable lineJsonl "x.jsonl.gz".toList) = none ∧
+    (JWriter.run toy codecTable id (.par (some 2) 16) "x.jsonl.gz".toList [[91, 49, 93], [91, 50, 93]]).bind
+      (Reader.vec.run toy codecTable lineJsonl "x.jsonl.gz".toList) = some [[91, 49, 93], [91, 50, 93]] := by
   decide
 
 /-- at `a2588b9` the cloud writer chose the codec from `Path::extension`, the reader by suffix: the key
@@ -280,10 +501,22 @@ theorem legacy_par_writer_unreadable :
 theorem legacy_cloud_dotfile_key :
     Legacy.cloudWriterCodec "dir/.gz".toList = none ∧
     (detectExt codecTable "dir/.gz".toList).map (·.name) = some "gzip" ∧
-    load toy codecTable .cloudJsonl "dir/.gz".toList
-      (Legacy.store toy codecTable .cloudJsonl "dir/.gz".toList [91, 49, 93, 10]) = none ∧
-    load toy codecTable .cloudJsonl "dir/.gz".toList
-      (store toy codecTable .cloudJsonl "dir/.gz".toList [91, 49, 93, 10]) = some [91, 49, 93, 10] := by
+    (Legacy.JWriter.run toy codecTable id .cloud "dir/.gz".toList [[91, 49, 93]]).bind
+      (Reader.cloud.run toy codecTable lineJsonl "dir/.gz".toList) = none ∧
+    (JWriter.run toy codecTable id .cloud "dir/.gz".toList [[91, 49, 93]]).bind
+      (Reader.cloud.run toy codecTable lineJsonl "dir/.gz".toList) = some [[91, 49, 93]] := by
+  decide
+
+/-- before the short-read `fix:` commit ONE `fill_buf()` decided: a genuine gzip stream under a neutral
+    name, delivered by a source whose first read returns a single byte, was passed through undetected
+    (negation of `neutral_signature_raw` / `detection_independent_of_read_schedule`); on a `File` the
+    pinned code did detect it, and the current model detects it for every schedule. -/
+theorem legacy_short_first_read_undetected :
+    Legacy.readerCodecSrc codecTable "x.dat".toList ⟨toy.compress "gzip" [1, 2, 3], [0]⟩ = none ∧
+    Legacy.autoReaderSrc toy codecTable "x.dat".toList ⟨toy.compress "gzip" [1, 2, 3], [0]⟩ =
+      some (toy.compress "gzip" [1, 2, 3]) ∧
+    Legacy.autoReaderSrc toy codecTable "x.dat".toList ⟨toy.compress "gzip" [1, 2, 3], []⟩ = some [1, 2, 3] ∧
+    autoReaderSrc toy codecTable "x.dat".toList ⟨toy.compress "gzip" [1, 2, 3], [0]⟩ = some [1, 2, 3] := by
   decide
 
 end IB.Compression
